@@ -78,7 +78,7 @@ def detachedModelled : List String :=
 /-- **goroutine_inventory.** The set of un-recovered goroutines in the source is exactly the set analysed: a new
     `go` statement, or a recover that was removed (or turned back into the nested form that never recovers), changes
     the regenerated list and breaks this theorem. In particular the pipeline stages (`WrapProcess#1`), the span
-    decoder (`OutputQuery#1`) and — since fix 767eed7 — the websocket tail's service goroutine (`Tail#1`, which runs the
+    decoder (`OutputQuery#1`) and — since fix 7ae3000 — the websocket tail's service goroutine (`Tail#1`, which runs the
     planner chain once per tick) do recover. -/
 theorem goroutine_inventory :
     ((ReadSide.goroutines.filter (fun g => !g.2.2 && g.2.1 != "drain" && g.2.1 != "close")).map (·.1) = detachedModelled) ∧
